@@ -101,7 +101,7 @@ def run(tier):
     outkinds = ["-p", "-P", "-Pstdout", "-o", "-c", "-pc", "-b", "-pb"]
     # '-P /dev/stdout' is only meaningful where /dev/stdout is the usual link to the process' fd 1
     # (in some sandboxes the node is missing and the path would be created as a regular file)
-    stdout_ok = os.path.islink("/dev/stdout") and os.readlink("/dev/stdout").endswith("fd/1")
+    stdout_ok = os.path.exists("/proc/self/fd/1")
     if not stdout_ok:
         outkinds.remove("-Pstdout")
     for pi, (prog, valid) in enumerate(progs):
@@ -208,7 +208,9 @@ def run(tier):
             outfile = os.path.join(d, "out.raw")
             args += ["-P", outfile]
         elif ok == "-Pstdout":
-            args += ["-P", "/dev/stdout"]
+            # '-P /dev/stdout' written as the node /dev/stdout links to: the link itself is replaced by a regular file whenever something
+            # runs nasm as root with '-l /dev/stdout' (the repository's test suite does), also in the middle of this run
+            args += ["-P", "/proc/self/fd/1"]
         elif ok == "-Pbad":
             args += ["-P", j["target"]]
         elif ok == "-o":
@@ -260,7 +262,7 @@ def run(tier):
             return {"rc": -999, "stdout": b"", "stderr": b"timeout", "file": None, "argv": args}
         # '-P /dev/stdout' is judged only if the node was the usual link to fd 1 before AND after the run (anything that runs nasm as
         # root with '-l /dev/stdout' - the repository's own test suite does - replaces it by a regular file at any moment)
-        dev_ok = os.path.islink("/dev/stdout") and os.readlink("/dev/stdout").endswith("fd/1")
+        dev_ok = True
         data = None
         if outfile:
             try:
